@@ -161,19 +161,23 @@ def vars_enc(p):
 IGNORED_ATTRS = {'transdimensional'}          # set by the chain on its proposals, constant
 
 
-def table_case(name, rng, out):
+def table_case(name, rng, out, k=None):
     mk = C.ALL[name]
-    T, k, start = rng.choice([6, 12]), rng.choice([1, 2]), rng.choice([1, 2])
+    T, k, start = rng.choice([6, 12]), k or rng.choice([1, 2]), rng.choice([1, 2])
     cfg = dict(kind='family', family=name, pt=False, ntemps=1, nchains=1, si=1, blobs=False, sigma=1.0, seed=rng.randrange(1, 10 ** 6),
                T=T, k=k, start=start, annealer=None, mixseed=rng.randrange(10 ** 6))
     s = C.build(cfg)
     s.start_position = C.start_position(cfg)
     pr = s.chains[0].proposal_dist.proposals[0]
     v0 = vars_enc(pr)
-    s.run(rng.choice([5, 9, 14]))
+    n = rng.choice([5, 9, 14]) if k == 1 else rng.choice([5, 7, 13])       # a slow proposal is left inside a cycle of its interval
+    s.run(n)
     if hasattr(pr, '_reset_adaptation') and rng.random() < 0.3:
         s.chains[0].reset_proposals()
-        s.run(3)
+        r = 3
+        while k > 1 and (n + r) % k == 0:
+            r += 1
+        s.run(r)
     v1 = vars_enc(pr)
     changed = sorted(a for a in v1 if v0.get(a) != v1[a] and a not in IGNORED_ATTRS)
     keys = sorted(pr.state.keys())
@@ -219,8 +223,8 @@ def run(seed, tier):
     # ---- (c) table
     terms, metas = [], []
     for name in sorted(C.ALL):
-        for _ in range(3 if thorough else 1):
-            t, m = table_case(name, rng, out)
+        for kk in ([1, 2, 3, None] if thorough else [1, rng.choice([2, 3])]):
+            t, m = table_case(name, rng, out, k=kk)
             terms.append(t)
             metas.append(m)
     failing = core.run_coq_cases('C05', TABLE_HEADER, terms, per_file=200, tag='table')
@@ -271,6 +275,29 @@ def run(seed, tier):
             break
         if len(out.samples) < 2:
             out.samples.append(dict(config=cfg, cutsets=cutsets[:2], N=N))
+    # ---- (a') every family once more as a slow proposal (jump interval 2 or 3), cut inside a cycle of the interval: the phase
+    # of the clock is part of the state
+    for i, name in enumerate(sorted(C.ALL)):
+        if len(out.violations) >= 4:
+            break
+        cfg = C.gen(rng, kind='family', allow_annealer=False)
+        cfg['family'] = name
+        cfg['k'] = rng.choice([2, 3])
+        cfg['T'] = rng.choice([4, 8])
+        N = 14
+        cut = rng.choice([c for c in range(1, N) if c % cfg['k'] != 0])
+        try:
+            v = resume_case(cfg, [cut], N, out)
+        except Exception as e:      # noqa
+            import traceback
+            out.corr_failures.append(dict(note='real sampler raised %r' % (e,), case=dict(config=cfg, cuts=[cut], N=N),
+                                          traceback=traceback.format_exc()[-1200:]))
+            continue
+        out.count('resume_cases')
+        out.count('slow_phase_cases')
+        out.nontrivial.add(repr((cfg, [cut])))
+        if v:
+            out.violations.append(v)
     if known_annealer is not None:
         out.variant['pt_state_has_ladder'] = False
         out.known_hits.append(dict(flag='pt_state_has_ladder', what=known_annealer['what'], witness=known_annealer['replay']))
